@@ -78,7 +78,7 @@ B64B = B64.encode()
 
 # ----------------------------------------------------------------------------- plan
 def plan(tier):
-    specs = []
+    specs = [{"part": "sizes"}]
     if tier == "quick":
         for i in range(6):
             specs.append({"part": "pw", "n": 35, "i": i})
@@ -410,7 +410,12 @@ def string_case(ctx, S, qspec, hs, meta=None, untouched=None):
                         "verify_password(%s, %r) raised %s(%s); the property allows only ValueError or TypeError" % (
                             pw_show(q), hs, type(val).__name__, val))
     elif val:
-        if justified(q, cands):
+        if isinstance(meta, str) and meta.startswith("truncate at"):
+            # a proper prefix of a valid hash string: the property says a truncated hash never returns True, whatever a
+            # lenient decoder could still make of it (a cut that only removes base64 padding included)
+            out = "accepted"
+            S.violation("truncated-hash-accepted", "verify_password(%s, <hash %s>) = %r: %r" % (pw_show(q), meta, val, hs))
+        elif justified(q, cands):
             out = "true-recomputed"
         else:
             out = "accepted"
@@ -441,6 +446,38 @@ def string_case(ctx, S, qspec, hs, meta=None, untouched=None):
 
 # ----------------------------------------------------------------------------- part enum
 P0 = [b"correct horse", b"", b"pass\0word", b"\xff" * 40]
+
+
+def run_sizes(spec, ctx):
+    """Auth.SALT_LENGTH / Auth.DIGEST_LENGTH are public class attributes that hash_password reads: whatever their values
+    were for earlier hashes in the process, the right password verifies and a wrong one does not"""
+    from mpgameserver.auth import Auth
+    S = State(ctx)
+    saved = (Auth.SALT_LENGTH, Auth.DIGEST_LENGTH)
+    try:
+        p0 = b"size history"
+        h = lib_hash(S, p0)        # a hash with the sizes in force so far
+        for sl, dl in ((16, 32), (24, 16), (8, 24), saved):
+            Auth.SALT_LENGTH, Auth.DIGEST_LENGTH = sl, dl
+            case = {"part": "sizes", "salt_length": sl, "digest_length": dl}
+            ctx.case(case)
+            h2 = lib_hash(S, p0)
+            if h2 is None:
+                continue
+            kind, val = lib_verify(p0, h2)
+            if kind == "exc" or val is not True:
+                S.violation("right-password-rejected", "after setting Auth.SALT_LENGTH=%d, Auth.DIGEST_LENGTH=%d (other sizes were used earlier in the process) verify_password(p, hash_password(p)) -> %r" % (sl, dl, val))
+            kind, val = lib_verify(p0 + b"x", h2)
+            if kind != "exc" and val is not False:
+                S.violation("wrong-password-accepted", "sizes (%d, %d): a wrong password verifies" % (sl, dl))
+            kind, val = lib_verify(p0, h)
+            if kind == "exc" or val is not True:
+                S.violation("right-password-rejected", "an older hash no longer verifies after the size attributes changed: %r" % (val,))
+            ctx.nt(("sizes", sl, dl))
+            ctx.label("sizes/%d-%d" % (sl, dl))
+    finally:
+        Auth.SALT_LENGTH, Auth.DIGEST_LENGTH = saved
+    ctx.sample({"part": "sizes", "sequence": [(16, 32), (24, 16), (8, 24), list(saved)]})
 
 
 def run_enum(spec, ctx):
@@ -787,6 +824,8 @@ def run_shard(spec, ctx):
         run_corrupt(spec, ctx)
     elif part == "struct":
         run_struct(spec, ctx)
+    elif part == "sizes":
+        run_sizes(spec, ctx)
     else:
         raise ValueError("unknown part %r" % part)
 
@@ -801,6 +840,8 @@ def replay_case(case, ctx):
         out = string_case(ctx, S, case["q"], case["h"], case.get("how"))
         if out is None:
             raise ValueError("replay case exceeds the scrypt cost cap and cannot be evaluated")
+    elif part == "sizes":
+        run_sizes({}, ctx)
     elif part == "types":
         p0 = pw_bytes(case["p"])
         h0 = lib_hash(S, p0)
